@@ -911,6 +911,11 @@ PROGS['garbage||disc||connect'] = ([('srv_garbage',), ('disc',)],
 for _p in ('garbage||disc', 'garbage||connect', 'garbage||disc,connect',
            'garbage||disc||connect'):
     QUICK_B[(PLAY_HR, _p)] = 1
+THOROUGH_DEEPER = {(NEGOTIATING, 'disc'), (NEGOTIATING, 'disc_imm'),
+                   (COMPRESSING, 'disc,connect'), (LOGGING_IN, 'disc'),
+                   (STATUSING, 'disc'), (STATUSING, 'disc,connect'),
+                   (SILENT, 'disc'), (SILENT, 'disc_imm'),
+                   (PLAY_HR, 'garbage||connect')}
 THOROUGH_ONLY = {(ENCRYPTING, 'disc,connect'),      # (COMPRESSING covers it)
                  (PLAY_HR, 'garbage||disc'), (PLAY_HR, 'garbage||disc,connect'),
                  (PLAY_MULTI, 'close||disc,connect'),
@@ -974,7 +979,12 @@ def run(ctx):
         lap('racing')
         for (start, prog), b in sorted(QUICK_B.items()):
             if ctx.thorough:
-                b += 1
+                # one more preemption for the quiescent start states and a
+                # few of the in-conversation ones (the others multiply too
+                # fast: their executions cannot be cut at visited states
+                # while RSA padding or many threads are in play)
+                if start in STARTS or (start, prog) in THOROUGH_DEEPER:
+                    b += 1
             elif (start, prog) in THOROUGH_ONLY:
                 continue
             res = ex.explore(ctx, factory, {'start': start, 'prog': prog}, b,
